@@ -38,4 +38,24 @@ CHECKS = {
         'all skin tones) x 3 letter cases x 26 contexts including fillers that contain listed words as substrings; all neutral token '
         'sequences up to length 3; every ordered true/false pair x 3 separators; polarity, exact span, score range on every leaf.',
    note=BASE_NOTE),
+ 'C06': dict(engine='E1-choice-tree', design_ref='7/C06',
+   technique='exhaustive enumeration of dates x layouts x cultures, each leaf parsed under several reference datetimes',
+   text='Every day of seed-rotated full years and the calendar boundaries of every year 1900-2099, rendered in all 12 English layouts and '
+        'in ISO / numeric / month-name layouts of 7 other cultures, alone and in carriers; each leaf is parsed under 2 (thorough 4) '
+        'reference datetimes spanning 1950-2090 and must give the identical single date entity with TIMEX = value = the date.',
+   note=BASE_NOTE + 'Month names and numeric order per culture are a table of the driver.'),
+ 'C07': dict(engine='E1-choice-tree', design_ref='7/C07',
+   technique='exhaustive enumeration of clock-time spellings and date+time compositions, with one-step call histories on the warm model',
+   text='All 24x60 HH:MM with 5 second variants (thorough all 86,400), all 12-hour spellings x 8 markers, o\'clock forms, 24-hour forms of 7 '
+        'other cultures, and <date> at <time> for 7 absolute/relative date expressions x 40 boundary times x 4 references, each also '
+        'after a related part-of-day query on the same warm model (non-initial state). Oracle: one reading for hour 0/13-23 or a '
+        'marker, exactly two readings otherwise; composed datetimes by datetime arithmetic.',
+   note=BASE_NOTE),
+ 'C08': dict(engine='E1-choice-tree', design_ref='7/C08',
+   technique='exhaustive enumeration of reference days (histories) x relative expressions against datetime/isocalendar arithmetic',
+   text='The reference date is enumerated day by day: a full year plus every month boundary, New-Year and leap-day neighbourhood of a '
+        '28-year window (thorough: every day of the window and every day 1950-2090 for week/month/year), 4 times of day on a 28-day '
+        'window, and an amount sweep up to N=5000 at 12 references; 49 English expressions per reference and the working phrases of 7 '
+        'other cultures.',
+   note=BASE_NOTE + 'Month/year shifts depend on the datedelta stand-in.'),
 }
